@@ -155,6 +155,8 @@ func loadNamedUnit(name string) (*Unit, []string, error) {
 		return loadRuntimeUnit()
 	case "main":
 		return loadMainUnit()
+	case "tree":
+		return loadTreeUnit()
 	}
 	return nil, nil, fmt.Errorf("unknown unit %s", name)
 }
@@ -201,5 +203,47 @@ func loadRuntimeUnit() (*Unit, []string, error) {
 	u.TrustedExt["fmt.Sprintf"] = &ExtSpec{Key: "fmt.Sprintf", Params: []string{"format"}}
 	u.TrustedExt["strconv.Quote"] = &ExtSpec{Key: "strconv.Quote", Params: []string{"s"}}
 	keys := []string{"tokens.Add", "tokens.Trim", "Init.add", "Init.matchDot", "translatePositions", "Init.reset", "Init.parse", "parseError.Error", "Init.memoize", "Init.memoizedResult", "tokens.Tokens", gp.structName() + ".Execute"}
+	return u, keys, nil
+}
+
+// loadTreeUnit: the grammar analyses of package tree (tree/peg.go): list primitives, countRules, checkRecursion, warn,
+// checkAlwaysSucceedsRecursion (property C15). Compile itself is outside the subset and is not part of the unit.
+func loadTreeUnit() (*Unit, []string, error) {
+	u, err := LoadUnit("tree", repoDir, []string{"./tree"}, "verif")
+	if err != nil {
+		return nil, nil, err
+	}
+	if err := u.CS.ParseFile(repoDir + "/tree/contracts_verif.go"); err != nil {
+		return nil, nil, err
+	}
+	// ASSUMED: fmt.Errorf never returns nil and modifies nothing; the text of the error is not specified
+	u.TrustedExt["fmt.Errorf"] = &ExtSpec{Key: "fmt.Errorf", Params: []string{"format"}, Contract: mkContract("fmt.Errorf", "ensures result != nil")}
+	// ASSUMED: range over (*node).Iterator / Iterator2 walks front, next, ... (ListIter in expr.go). The model was written for
+	// exactly this source text of the two methods; Front and Next, which they call, are verified in this unit.
+	u.ListIters = map[string]*ListIter{
+		"node.Iterator":  {Struct: "node", Front: "front", Next: "next"},
+		"node.Iterator2": {Struct: "node", Front: "front", Next: "next", WithIndex: true},
+	}
+	want := map[string]string{
+		"node.Iterator":  "{element:=n.Front()returnfunc(yieldfunc(*node)bool){forelement!=nil{if!yield(element){return}element=element.Next()}}}",
+		"node.Iterator2": "{element:=n.Front()returnfunc(yieldfunc(int,*node)bool){i:=0forelement!=nil{if!yield(i,element){return}i++element=element.Next()}}}",
+	}
+	for k, w := range want {
+		fi, ok := u.Funcs[k]
+		if !ok {
+			return nil, nil, fmt.Errorf("tree unit: %s not found", k)
+		}
+		got := exprString(u.Fset, fi.Body) // source text without white space
+		if got != w {
+			return nil, nil, fmt.Errorf("tree unit: the body of %s is not the one the range-over-func model was written for:\n got  %s\n want %s", k, got, w)
+		}
+	}
+	keys := []string{"Type.GetType", "node.String", "node.GetID", "node.Init", "node.Front", "node.Next", "node.Len", "node.PushFront", "node.PopFront", "node.PushBack",
+		"Tree.warn", "Tree.checkRecursion", "Tree.countRules", "node.CheckAlwaysSucceeds", "node.checkAlwaysSucceedsRecursion", "verifLast"}
+	for _, k := range sortedKeys(u.CS.Funcs) {
+		if u.CS.Funcs[k].Lemma {
+			keys = append(keys, k)
+		}
+	}
 	return u, keys, nil
 }
